@@ -2,7 +2,7 @@
 import ast
 
 from sa.core import (AnalysisError, FUNC, assignments, call_name, class_attr, const, dotted, enclosing, enclosing_func,
-                     enclosing_stmt, is_attr, is_name, is_self_attr, literal, norm, params, parent, walk_local, names_in, assigned_names)
+                     enclosing_stmt, is_attr, is_name, is_self_attr, literal, norm, params, parent, walk_local, names_in, assigned_names, ancestors)
 from sa.guards import facts, enclosing_loops
 from sa import events
 from sa.affine import WidthInterp, Lin, Str, Chunk, CL, Cells, Text, UNK, Path, Facts, Obligation, ZERO
@@ -54,6 +54,7 @@ def run(cx):
 
     cx.guard(_r12d, cx, resize)
     cx.guard(_r12i, cx, resize, fit)
+    cx.guard(param_purity, cx, "R12h", [(resize, params(resize)[1]), (fit, params(fit)[0])])
     cx.guard(_r12c, cx, fit)
     cx.guard(_r12b, cx, repo, titles, records)
     cx.guard(_r12e, cx, mk_line)
@@ -549,3 +550,21 @@ def _r12i(cx, resize, fit):
     ok = len(tail) == 2 and norm(tail[0]).startswith("result.append(") and "'.' * dots_len" in norm(tail[0]).replace("*", " * ").replace("  ", " ") and norm(tail[1]) == "return result" \
         and norm(rs[0].value.args[0]) == params(fit)[0] and norm(rs[0].value.args[1]) == "visible_text_len"
     cx.ob("R12i", rs[0], ok, "truncated cell = resize(cell's own chunks, width - dots) followed by the dots chunk" if ok else "the truncation branch does not return resize(own chunks, visible length) + dots")
+
+
+def param_purity(cx, rule, funcs):
+    """The chunk-list helpers receive lists that callers keep (cached renderings of enum cells, chunk lists of texts): any
+    in-place change of the parameter object - through the parameter or an alias of it: item / slice assignment, del, +=, a
+    mutator call - changes what later renderings show.  (Re-binding a name to a new list is fine.)"""
+    from sa.core import param_mutations
+    n = 0
+    for f, p in funcs:
+        for x, alias, bad in param_mutations(f, p):
+            n += 1
+            # harmless only when that name was re-bound to a fresh list before, in an enclosing block (dominating)
+            rebound = [st for st, v in assignments(f, alias) if v is not None and st.lineno < x.lineno and
+                       (isinstance(v, (ast.List, ast.ListComp)) or isinstance(v, ast.Call) and call_name(v) in ("list", "sorted"))]
+            dominated = any(parent(st) is f or any(parent(st) is a for a in ancestors(x)) for st in rebound)
+            cx.ob(rule, x, dominated, f"{f.name}: works on its own copy of `{p}`" if dominated else
+                  f"{f.name}: {bad}, which may be the caller's object `{p}` (e.g. the cached rendering of an enum value, or a text's chunk list): the same value renders differently afterwards")
+    cx.ob(rule, funcs[0][0], True, f"chunk-list helpers examined for in-place changes of their list parameter ({n} candidate sites)", stmt="parameter purity")
